@@ -316,7 +316,8 @@ Definition fp_agrees (x : fp_case) : bool :=
 
 (* the property's side: a call may leave behind only (a) the message slots of
    the client it was made through, which no call reads, (b) fills of
-   value-idempotent memo cells *)
+   value-idempotent memo cells, (c) its own transport's proxy attribute
+   re-assigned with the value every call through that client assigns *)
 Definition write_allowed (c : N) (w : obs_write) : bool :=
   match ow_loc w with
   | LMsgTx c' | LMsgRx c' => c' =? c
